@@ -85,6 +85,11 @@ fn probes(site: &TSite, orig: &V, dense: bool) -> Vec<(String, V)> {
         }
         _ => {}
     }
+    if matches!(site.ty, Ty::Params | Ty::List(..)) {
+        // the same lists with the members of every entry in the other order
+        let rev: Vec<(String, V)> = out.iter().map(|(w, v)| (format!("{} (entry members reversed)", w), reverse_maps(v))).filter(|(_, v)| !out.iter().any(|(_, o)| o == v)).collect();
+        out.extend(rev);
+    }
     out
 }
 
@@ -95,11 +100,13 @@ fn bounded(ty: &Ty) -> bool {
 pub fn run(ctx: &'static Ctx) {
     ctx.rule("state = (seed message, bounded member, probe value); the mutated message is decoded by the real code and compared in full with the reference decoder (accept iff within the declared limit; accepted values whole); non-trivial = every probe");
     ctx.assume("limits come from the specification tables in spec.rs, not from sizes.rs; COSE kty/alg/crv sign and value checks are part of the reference decoder");
-    let seeds = seed_msgs(false);
+    let mut seeds = seed_msgs(false);
+    // limits do not depend on the order in which members arrive either
+    seeds.extend(reversed_full_seeds());
     let mut repls: Vec<Repl> = Vec::new();
     let mut members: std::collections::BTreeSet<String> = Default::default();
     for (si, s) in seeds.iter().enumerate() {
-        let anchor = s.label.ends_with(":full") || s.label.ends_with(":minimal");
+        let anchor = s.label.ends_with(":full") || s.label.ends_with(":minimal") || s.label.ends_with("(members reversed)");
         for site in treewalk::sites(&s.target.schema(), &s.wire) {
             if site.path.is_empty() || !bounded(&site.ty) {
                 continue;
@@ -119,7 +126,7 @@ pub fn run(ctx: &'static Ctx) {
     sweep_replacements(ctx, P, "single bounded member across its limit", "every bounded member of every seed at every length 0..=capacity+64 (anchors) or capacity-1/capacity/capacity+1 (single-member seeds) and far beyond; integers at 0, max-1, max, max+1, 2^32, 2^63, 2^64-1 and the negative counterparts", &seeds, &repls);
 
     // interaction: every pair of bounded members of the full anchors at {c-1, c, c+1}
-    let fulls: Vec<usize> = seeds.iter().enumerate().filter(|(_, s)| s.label.ends_with(":full")).map(|(i, _)| i).collect();
+    let fulls: Vec<usize> = seeds.iter().enumerate().filter(|(_, s)| s.label.ends_with(":full") || s.label.ends_with("(members reversed)")).map(|(i, _)| i).collect();
     let mut pair_cases: Vec<(usize, Repl, Repl)> = Vec::new();
     for si in fulls {
         let s = &seeds[si];
@@ -177,7 +184,7 @@ pub fn run(ctx: &'static Ctx) {
     // capacity / capacity+1 while one other member (any type) takes each of a menu of values
     {
         let mut cases: Vec<(usize, Repl, Repl)> = Vec::new();
-        for (si, s) in seeds.iter().enumerate().filter(|(_, s)| s.label.ends_with(":full")) {
+        for (si, s) in seeds.iter().enumerate().filter(|(_, s)| s.label.ends_with(":full") || s.label.ends_with("(members reversed)")) {
             let sites: Vec<TSite> = treewalk::sites(&s.target.schema(), &s.wire).into_iter().filter(|x| !x.path.is_empty()).collect();
             let menu = |site: &TSite| -> Vec<(String, V)> {
                 match &site.ty {
